@@ -27,6 +27,8 @@ def build_vd(eng, ns, R=2, M=1, N=1, junk=True, thr_kinds=('int',), modes=(True,
     sigs, real = vsign.make_sigs(t, N, Loh=Loh, junk=junk)
     Tm = {'signatures': {}, 'signed': Td['signed']}
     Um = {'signatures': sigs, 'signed': Ud['signed']}
+    dmt.attach(Td, Tm, None, (ns, 'T'))
+    dmt.attach(Ud, {'signatures': {}, 'signed': Ud['signed']}, None, (ns, 'U'))
     name = t.str('name', 8)
     namev = t.anyvalue('namev', first=[('s', name)]) if name_any else name
     gpg = t.any('gpg', [(repr(v), v) for v in modes])
@@ -85,6 +87,7 @@ def factory_vd(ns, props, relational=False, **kw):
         import conda_content_trust.authentication as A
         from harness import lemmas
         ovr = lemmas.overrides(eng)
+        ovr.update(dmt.checker_override())
 
         def harness(eng):
             tp = build_vd(eng, ns, **kw)
@@ -226,16 +229,19 @@ def judge_vd(case, obs, props):
 # ---------------------------------------------------------------------------
 # verify_root
 
-def build_vr(eng, ns, R=2, M=1, N=1, junk=False, ver_kinds=('int', 'bool', 'float'), thr_kinds=('int',), Loh=2, type_L=8):
+def build_vr(eng, ns, R=2, M=1, N=1, junk=False, ver_kinds=('int', 'bool', 'float'), ver_kinds_U=None, thr_kinds=('int',), Loh=2, type_L=8):
     t = T(eng, ns=ns)
     Td = dmt.dm_template(t, 'T', R=R, M=M, ver_kinds=ver_kinds, thr_kinds=thr_kinds, type_L=type_L)
-    Ud = dmt.dm_template(t, 'U', R=R, M=M, ver_kinds=ver_kinds, thr_kinds=thr_kinds, type_L=type_L)
+    Ud = dmt.dm_template(t, 'U', R=R, M=M, ver_kinds=ver_kinds_U or ver_kinds, thr_kinds=thr_kinds, type_L=type_L)
     sigs, real = vsign.make_sigs(t, N, Loh=Loh, junk=junk, gpg_only=False)
     Tm = {'signatures': {}, 'signed': Td['signed']}
     Um = {'signatures': sigs, 'signed': Ud['signed']}
     enc = t.int('stdout_enc')
     eng.domain(('enc', ns), z3.And(enc.e >= 0, enc.e <= 2))
-    return dict(T=Td, U=Ud, Tm=Tm, Um=Um, sigs=sigs, real=real, enc=enc)
+    tp = dict(T=Td, U=Ud, Tm=Tm, Um=Um, sigs=sigs, real=real, enc=enc)
+    dmt.attach(Td, Tm, None, (ns, 'T'))
+    dmt.attach(Ud, Um, sig_entries_wf(tp), (ns, 'U'))
+    return tp
 
 
 def exact_version(v):
@@ -294,6 +300,7 @@ def factory_vr(ns, props, **kw):
         import conda_content_trust.authentication as A
         from harness import lemmas
         ovr = lemmas.overrides(eng)
+        ovr.update(dmt.checker_override())
 
         def harness(eng):
             tp = build_vr(eng, ns, **kw)
@@ -392,3 +399,43 @@ def judge_vr(case, obs, props):
     if ('C12' in props or 'C04' in props) and not obs.get('unchanged', True):
         return 'verify_root modified its arguments'
     return None
+
+
+# ---------------------------------------------------------------------------
+# checker lemma units for the templates above (run before the main units)
+
+def lemma_units(kind, ns, **kw):
+    from pysym.framework import Unit
+    build = build_vd if kind == 'vd' else build_vr
+
+    def env_of(which):
+        def b(eng):
+            tp = build(eng, ns, **kw)
+            d = tp[which]
+            if kind == 'vr' and which == 'U':
+                return d, tp['Um']
+            return d, {'signatures': {}, 'signed': d['signed']}
+        return b
+    return [Unit(f'lemma:checker:{ns}:{w}', dmt.checker_lemma_factory(env_of(w), (ns, w)), expect=('accepts', 'rejects')) for w in ('T', 'U')]
+
+
+def prove_checker_lemmas(res, module, units):
+    """run the lemma units; a lemma counts as proved when its unit explored paths, every obligation was unsat and nothing was inconclusive"""
+    from pysym import framework as F
+    before_inc = len(res.inconclusive)
+    n0 = (res.obligations, res.discharged)
+    recs = F.run_units(res, module, units)
+    by = {}
+    for r in recs:
+        if 'unit' in r:
+            by.setdefault(r['unit'], []).append(r)
+    bad_units = {i.get('unit') for i in res.inconclusive[before_inc:]}
+    for u in units:
+        rs = by.get(u.name, [])
+        ok = bool(rs) and u.name not in bad_units and '?' not in bad_units and '*' not in bad_units \
+            and all(ob['status'] == 'unsat' for r in rs for ob in r.get('obligations', ()))
+        ns, w = u.name.split(':')[2:4]
+        dmt.PROVED[(ns, w)] = ok
+        res.lemmas.append(dict(lemma=f'checkformat_delegating_metadata accepts the {w} template of unit {ns} <=> it is well formed (C14 on this template)',
+                               name=u.name, proved=ok, paths=len(rs)))
+        F.log(f'{u.name}: {"proved" if ok else "NOT proved (the checker will be inlined)"} [{len(rs)} paths]')
